@@ -2,18 +2,20 @@
    Property theorems only: each is closed by `exact <lemma>` and followed by Print Assumptions.
    The models (Model/C02_MH.v) are the transitions of cuqi.experimental.mcmc.{MH,CWMH,PCN,MALA,ULA}.step and
    cuqi.sampler.{MH,CWMH,pCN,MALA,ULA}.single_update; `guard` says which NaN/inf guard a site has:
-     GNanInf  experimental MH, CWMH, MALA, ULA (and every site after fixes/C02_nonfinite_guard.diff)
-     GNan     legacy MALA on the unchanged tree
-     GNone    legacy MH, CWMH, pCN and experimental PCN on the unchanged tree.
+     GNanInf  every site of the current tree (/repo since fix 7ac16b1; the harness probes the tree under test and runs the model in
+              the variant it finds -- all ten sites probe as GNanInf today, both pCN sites as the centred proposal)
+     GNan     legacy MALA before that repair      GNone  legacy MH, CWMH, pCN and experimental PCN before that repair
+     (the `_refuted` theorems about GNan / GNone and the uncentred pCN proposal document the repaired defects; their return is
+     reported as VIOLATION).
    Invariance beyond finite state spaces (round 5): proved in full on every COUNTABLE state space (Coquelicot series; pi >= 0,
    q >= 0, rows of q summing to 1 -- nothing else), and for densities on a compact interval of R as an identity of Riemann
    integrals against every continuous test function: in full for continuous pi, q (C02_invariance_interval_continuous, with
    Fubini for continuous integrands proved, C02_fubini_continuous), and under four named integrability hypotheses for
    non-continuous densities (C02_invariance_interval_partial).  NOT proved: unbounded supports (improper integrals), R^n. *)
 From CV Require Import Base.Tac Base.Cmp Base.Ext Model.C02_MH
-  Model.C02_Tune Proofs.C02_MH Proofs.C02_Balance Proofs.C02_Vec Proofs.C02_Real Proofs.C02_Witness Proofs.C02_Tune Proofs.C02_Bilinear Proofs.C02_Measure Proofs.C02_Countable Proofs.C02_Continuous Proofs.C02_Fubini Proofs.C02_Link.
+  Model.C02_Tune Proofs.C02_MH Proofs.C02_Balance Proofs.C02_Vec Proofs.C02_Real Proofs.C02_Witness Proofs.C02_Tune Proofs.C02_Bilinear Proofs.C02_Measure Proofs.C02_Countable Proofs.C02_Continuous Proofs.C02_Fubini Proofs.C02_Link Proofs.C02_Steps.
 From Coq Require Import QArith Qreals Reals.
-From Coquelicot Require Import Hierarchy Series RInt Continuity.
+From Coquelicot Require Import Hierarchy Series RInt Continuity Lim_seq.
 Close Scope R_scope.   (* Coquelicot opens it globally; this file writes %R / %Q explicitly *)
 
 (* ---- the log-domain decision is the MH decision ------------------------------------------------------- *)
@@ -54,7 +56,8 @@ Qed.
 Print Assumptions C02_rw_ratio_vector_scale.
 
 (* the random-walk move is symmetric exactly when the proposal distribution has mean zero:
-   x' | x ~ N(x + s mu, s^2).  FINDING: both MH interfaces accept any proposal flagged is_symmetric, whatever its mean *)
+   x' | x ~ N(x + s mu, s^2).  (Repaired in /repo, 0f15211: a proposal= with non-zero mean is refused.  STILL OPEN: a proposal
+   distribution symmetric about a non-zero centre that has no `mean` attribute -- Uniform(0,1) -- is accepted: C02_shifted_noise_refuted) *)
 Theorem C02_rw_zero_mean_symmetric : forall s x x' : Q, (log_q_rw s 0 x x' == log_q_rw s 0 x' x)%Q.
 Proof. exact rw_zero_mean_symmetric. Qed.
 Print Assumptions C02_rw_zero_mean_symmetric.
@@ -156,7 +159,7 @@ Proof.
 Qed.
 Print Assumptions C02_pcn_proposal_laws.
 
-(* FINDING (refuted class = prior mean <> 0 with the uncentred proposal of the unchanged tree): x' | x ~ N(a x + s m, s^2 C)
+(* repaired defect (e67a6d1; refuted class = prior mean <> 0 with the UNCENTRED proposal the code had before): x' | x ~ N(a x + s m, s^2 C)
    is not prior-reversible, so the likelihood-only ratio is not the MH ratio of the proposal used *)
 Theorem C02_pcn_nonzero_mean_refuted :
   exists a s m x x' : Q, (a * a + s * s == 1)%Q /\ ~ (s == 0)%Q /\ ~ (m == 0)%Q /\
@@ -323,6 +326,16 @@ Proof.
 Qed.
 Print Assumptions C02_invariance_countable_steps.
 
+(* a SWEEP on a countable state space (CWMH on a lattice of any dimension: one MH kernel per coordinate, each with its own proposal that
+   moves one coordinate): propagating the law through ANY sequence of MH kernels with target pi gives pi again (law / push-forward form:
+   no composed kernel, hence no interchange of double series is needed) *)
+Theorem C02_sweep_invariant_countable : forall (pi : nat -> R) (qs : list (nat -> nat -> R)),
+  (forall x, 0 <= pi x)%R ->
+  Forall (fun q => (forall x y, 0 <= q x y)%R /\ (forall x, is_series (q x) 1%R)) qs ->
+  forall y, fold_left (fun m K => pushK K m) (map (KR pi) qs) pi y = pi y.
+Proof. exact mh_sweep_invariant_countable. Qed.
+Print Assumptions C02_sweep_invariant_countable.
+
 Example C02_countable_example :
   (forall x, 0 <= geo_pi x)%R /\ (forall x y, 0 <= geo_q x y)%R /\ (forall x, is_series (geo_q x) 1%R) /\ ex_series geo_pi.
 Proof. exact geo_hyps. Qed.
@@ -392,6 +405,82 @@ Example C02_interval_continuous_example :
   (forall x, 0 <= pi x)%R /\ (forall x y, 0 <= q x y)%R /\ (forall x, continuity_pt pi x) /\ (forall x y, continuity_2d_pt q x y) /\
   (forall x, continuity_pt f x) /\ pi 0%R = 0%R /\ pi 1%R = 0%R /\ pi (1 / 2)%R = 1%R.
 Proof. exact tent_hyps. Qed.
+
+(* the proposals the samplers use, in one dimension: Gaussian N(m(x), sigma^2) with ANY continuous mean map m -- random walk m(x) = x,
+   MALA m(x) = x + (s/2) grad(x) with sigma^2 = s, pCN m(x) = sqrt(1-s^2) x with sigma = s -- for every continuous target density pi >= 0
+   (compact support inside [a,b] allowed) and every continuous test function: invariance on [a,b] with no analytic hypothesis left; for
+   the random walk the kernel's acceptance probability is min(1, pi(y)/pi(x)), the rule the code applies *)
+Theorem C02_gaussian_proposal_interval : forall (pi m f : R -> R) (c sigma : R),
+  (forall x, 0 <= pi x)%R -> (forall x, continuity_pt pi x) -> (forall x, continuity_pt m x) -> (forall x, continuity_pt f x) -> (0 <= c)%R ->
+  (forall a b : R, RInt (fun x => (pi x * Kf a b pi (gauss_q c sigma m) f x)%R) a b = RInt (fun x => (pi x * f x)%R) a b) /\
+  (forall x y : R, (0 < pi x)%R -> (0 < c)%R -> alphaC pi (gauss_q c sigma (fun t => t)) x y = Rmin 1 (pi y / pi x)).
+Proof.
+  intros pi m f c sigma Hp Cp Cm Cf Hc. split.
+  - intros a b. exact (gaussian_proposal_invariant pi m f c sigma a b Hp Cp Cm Cf Hc).
+  - intros x y Hx Hc'. exact (rw_gauss_alpha pi c sigma x y Hp Hx Hc').
+Qed.
+Print Assumptions C02_gaussian_proposal_interval.
+
+(* a compactly supported target AND a proposal with BOUNDED support: the triangular random walk q(x,y) = max(0, w - |y - x|) is
+   non-negative, zero for |y - x| >= w, symmetric and jointly continuous, so the interval theorem applies with no further hypothesis *)
+Theorem C02_bounded_support_proposal_interval : forall (pi f : R -> R) (w : R),
+  (forall x, 0 <= pi x)%R -> (forall x, continuity_pt pi x) -> (forall x, continuity_pt f x) ->
+  (forall a b : R, RInt (fun x => (pi x * Kf a b pi (tent_q w) f x)%R) a b = RInt (fun x => (pi x * f x)%R) a b) /\
+  (forall x y, 0 <= tent_q w x y)%R /\ (forall x y, (w <= Rabs (y - x))%R -> tent_q w x y = 0%R) /\ (forall x y, tent_q w x y = tent_q w y x).
+Proof.
+  intros pi f w Hp Cp Cf. destruct (tent_q_facts w) as [Q0 [Q1 [Q2 _]]]. split; [|split; [exact Q0 | split; [exact Q1 | exact Q2]]].
+  intros a b. exact (bounded_support_proposal_invariant pi f w a b Hp Cp Cf).
+Qed.
+Print Assumptions C02_bounded_support_proposal_interval.
+
+(* ANY NUMBER of transitions and ANY schedule of proposals (e.g. the different scales a sampler has before, during and after warm-up) on a
+   compact interval: for a continuous target density that is positive everywhere the image K f of a continuous test function is continuous
+   again, so the one-step statement iterates: int pi (K_q1 (K_q2 (... (K_qn f)))) = int pi f for every list of jointly continuous q_i >= 0 *)
+Theorem C02_invariance_interval_any_schedule : forall (a b : R) (pi : R -> R),
+  (forall x, 0 < pi x)%R -> (forall x, continuity_pt pi x) ->
+  forall (qs : list (R -> R -> R)) (f : R -> R),
+  Forall (fun q => (forall x y, 0 <= q x y)%R /\ (forall x y, continuity_2d_pt q x y)) qs -> (forall x, continuity_pt f x) ->
+  RInt (fun x => (pi x * Kiter a b pi qs f x)%R) a b = RInt (fun x => (pi x * f x)%R) a b /\
+  (forall x, continuity_pt (Kiter a b pi qs f) x).
+Proof.
+  intros a b pi Hp Cp qs f HF Cf. split.
+  - exact (invariance_any_schedule a b pi Hp Cp qs f HF Cf).
+  - exact (Kiter_cont a b pi Hp Cp qs f HF Cf).
+Qed.
+Print Assumptions C02_invariance_interval_any_schedule.
+
+Example C02_any_schedule_example :
+  (forall x : R, 0 < 1 + x * x)%R /\ (forall x : R, continuity_pt (fun x => (1 + x * x)%R) x) /\
+  Forall good_q (gauss_q 1 1 (fun t => t) :: gauss_q 1 (1 / 2) (fun t => t) :: nil).
+Proof. exact steps_example. Qed.
+
+(* unbounded supports, as far as proved: for continuous pi, q, f on the whole line the net flow of the MH kernel vanishes over EVERY
+   square [a,b]^2, hence so does its limit along the squares [-n,n]^2.  `_partial`: passing from the squares to the kernel integrated
+   over all of R (improper integrals in both variables, dominated convergence) is not formalised. *)
+Theorem C02_whole_line_net_flow_partial : forall (pi : R -> R) (q : R -> R -> R) (f : R -> R),
+  (forall x, 0 <= pi x)%R -> (forall x y, 0 <= q x y)%R ->
+  (forall x, continuity_pt pi x) -> (forall x y, continuity_2d_pt q x y) -> (forall x, continuity_pt f x) ->
+  (forall a b : R, RInt (fun x => RInt (hflow pi q f x) a b) a b = 0%R) /\
+  is_lim_seq (fun n : nat => RInt (fun x => RInt (hflow pi q f x) (- INR n)%R (INR n)) (- INR n)%R (INR n)) (Rbar.Finite 0%R).
+Proof.
+  intros pi q f Hp Hq Cp Cq Cf. split.
+  - exact (net_flow_zero_every_box pi q f Hp Hq Cp Cq Cf).
+  - exact (net_flow_limit_along_squares pi q f Hp Hq Cp Cq Cf).
+Qed.
+Print Assumptions C02_whole_line_net_flow_partial.
+
+(* R^2 (and, with more parameters, R^n): ONE coordinate update of CWMH -- an MH move in x1 for the conditional density pi(., x2) with x2
+   held fixed -- leaves the joint density invariant on the rectangle [a,b] x [c,d] (iterated Riemann integrals), for slices that are
+   continuous and non-negative.  `_partial`: the composition of the coordinate kernels into a sweep on a continuous space is not
+   formalised (on finite spaces: C02_sweep_invariant). *)
+Theorem C02_coordinate_kernel_2d_partial : forall (pi2 : R -> R -> R) (q2 : R -> R -> R -> R) (f2 : R -> R -> R) (a b c d : R),
+  (forall x2 x1, 0 <= pi2 x1 x2)%R -> (forall x2 x1 y1, 0 <= q2 x2 x1 y1)%R ->
+  (forall x2 x1, continuity_pt (fun t => pi2 t x2) x1) -> (forall x2 x y, continuity_2d_pt (q2 x2) x y) ->
+  (forall x2 x1, continuity_pt (fun t => f2 t x2) x1) ->
+  RInt (fun x2 => RInt (fun x1 => (pi2 x1 x2 * Kf a b (fun t => pi2 t x2) (q2 x2) (fun t => f2 t x2) x1)%R) a b) c d =
+  RInt (fun x2 => RInt (fun x1 => (pi2 x1 x2 * f2 x1 x2)%R) a b) c d.
+Proof. exact coordinate_kernel_invariant_2d. Qed.
+Print Assumptions C02_coordinate_kernel_2d_partial.
 
 (* ---- scale adaptation, every tuning window: more accepted flags in a window never give a smaller scale, the scale stays in (0,1];
         two runs with pointwise ordered windows stay ordered after EVERY adaptation step; the vanishing-adaptation bound with its
@@ -486,6 +575,63 @@ Theorem C02_model_step_is_alpha : forall (logd : vec -> ext) (s : Q) (st : state
 Proof. exact mh_step_is_acc0. Qed.
 Print Assumptions C02_model_step_is_alpha.
 
+(* asymmetric proposals (MALA): the model's rule on (log pi(x') - log pi(x)) + (log q(x|x') - log q(x'|x)) accepts exactly when
+   u <= acc0 (pi(x) q(x'|x)) (pi(x') q(x|x')); and this is the rule of one whole MALA transition of the model *)
+Theorem C02_model_accept_is_alpha_asymmetric : forall (g : guard) (l a b lf lb : Q) (u : R),
+  (0 < u)%R -> (u <= 1)%R -> Q2R l = ln u ->
+  (accept g (Fin l) (ext_add (ext_sub (Fin a) (Fin b)) (Fin (lb - lf))) (Fin a) = true <->
+   (u <= acc0 (exp (Q2R b) * exp (Q2R lf)) (exp (Q2R a) * exp (Q2R lb)))%R).
+Proof. exact accept_is_acc0_asym. Qed.
+Print Assumptions C02_model_accept_is_alpha_asymmetric.
+
+Theorem C02_model_mala_step_is_alpha : forall (logd : vec -> ext) (grad : vec -> vec) (g : guard) (s : Q) (st : state) (xi : vec) (l a b : Q) (u : R),
+  (0 < u)%R -> (u <= 1)%R -> Q2R l = ln u -> sld st = Fin b -> logd (mala_prop s (sx st) (sgr st) xi) = Fin a ->
+  let xs := mala_prop s (sx st) (sgr st) xi in
+  (snd (mala_step logd grad g s st xi (Fin l)) = true <->
+   (u <= acc0 (exp (Q2R b) * exp (Q2R (log_prop s xs (sx st) (sgr st))))
+              (exp (Q2R a) * exp (Q2R (log_prop s (sx st) xs (grad xs)))))%R).
+Proof. exact mala_step_is_acc0. Qed.
+Print Assumptions C02_model_mala_step_is_alpha.
+
+(* pCN: the model decides on the LIKELIHOOD ratio alone; for a symmetric bilinear prior precision B and a^2 + s^2 = 1 that IS the decision
+   u <= acc0 (prior(x) lik(x) q(x,x')) (prior(x') lik(x') q(x',x)) of the kernel whose target is the posterior and whose proposal is the
+   Crank-Nicolson move (zero-mean form; the centred form is the same statement in x - m, C02_pcn_centred_reversible) *)
+Theorem C02_model_pcn_accept_is_alpha : forall (V : Type) (B : V -> V -> Q) (lin : Q -> V -> Q -> V -> V),
+  (forall u v, B u v == B v u)%Q -> (forall a u b v w, B (lin a u b v) w == a * B u w + b * B v w)%Q ->
+  forall (g : guard) (a s : Q) (x x' : V) (lk lk' l : Q) (u : R),
+  (a * a + s * s == 1)%Q -> ~ (s == 0)%Q -> (0 < u)%R -> (u <= 1)%R -> Q2R l = ln u ->
+  (accept g (Fin l) (ext_sub (Fin lk') (Fin lk)) (Fin lk') = true <->
+   (u <= acc0 (exp (Q2R (lk + log_prior V B x)) * exp (Q2R (log_q V B lin a s x x')))
+              (exp (Q2R (lk' + log_prior V B x')) * exp (Q2R (log_q V B lin a s x' x))))%R).
+Proof. exact pcn_accept_is_acc0. Qed.
+Print Assumptions C02_model_pcn_accept_is_alpha.
+
+(* the same for one coordinate update of the CWMH model and for one whole pCN transition of the model (the prior and proposal terms cancel
+   for EVERY pair X, X' of the abstract space, in particular for the images of the model's current point and proposal) *)
+Theorem C02_model_cw_step_is_alpha : forall (logd : vec -> ext) (j : nat) (p : Q) (xt : vec) (l : Q) (u c : R),
+  (0 < u)%R -> (u <= 1)%R -> Q2R l = ln u -> (0 < c)%R ->
+  (is_fin (logd xt) = true \/ logd xt = NInf) -> (is_fin (logd (upd xt j p)) = true \/ logd (upd xt j p) = NInf) ->
+  ~ (logd xt = NInf /\ logd (upd xt j p) = NInf) ->
+  (snd (cw_one logd GNanInf j p (Fin l) xt (logd xt)) = true <-> (u <= acc0 (dens (logd xt) * c) (dens (logd (upd xt j p)) * c))%R).
+Proof. exact cw_one_is_acc0. Qed.
+Print Assumptions C02_model_cw_step_is_alpha.
+
+Theorem C02_model_pcn_step_is_alpha : forall (V : Type) (B : V -> V -> Q) (lin : Q -> V -> Q -> V -> V),
+  (forall u v, B u v == B v u)%Q -> (forall a u b v w, B (lin a u b v) w == a * B u w + b * B v w)%Q ->
+  forall (lik : vec -> ext) (cen : bool) (g : guard) (a s : Q) (m : vec) (st : state) (xi : vec) (X X' : V) (lk lk' l : Q) (u : R),
+  (a * a + s * s == 1)%Q -> ~ (s == 0)%Q -> (0 < u)%R -> (u <= 1)%R -> Q2R l = ln u ->
+  sld st = Fin lk -> lik (pcn_prop cen a s m (sx st) xi) = Fin lk' ->
+  (snd (pcn_step lik cen g a s m st xi (Fin l)) = true <->
+   (u <= acc0 (exp (Q2R (lk + log_prior V B X)) * exp (Q2R (log_q V B lin a s X X')))
+              (exp (Q2R (lk' + log_prior V B X')) * exp (Q2R (log_q V B lin a s X' X))))%R).
+Proof. exact pcn_step_is_acc0. Qed.
+Print Assumptions C02_model_pcn_step_is_alpha.
+
+Example C02_link_example :
+  (0 < 1)%R /\ (1 <= 1)%R /\ Q2R 0 = ln 1 /\ (is_fin (Fin 0) = true \/ Fin 0 = NInf) /\ (is_fin NInf = true \/ NInf = NInf) /\
+  ~ (Fin 0 = NInf /\ NInf = NInf) /\ ((3 # 5) * (3 # 5) + (4 # 5) * (4 # 5) == 1)%Q /\ ~ ((4 # 5) == 0)%Q.
+Proof. exact link_example. Qed.
+
 (* the rational alpha0 evaluated by the lattice cells of the correspondence IS the real acc0 of the countable / interval theorems *)
 Theorem C02_alpha0_is_acc0 : forall (A : Type) (pi : A -> Q) (q : A -> A -> Q) (x y : A),
   Q2R (alpha0 A pi q x y) = acc0 (Q2R (pi x * q x y)) (Q2R (pi y * q y x)).
@@ -546,7 +692,7 @@ Theorem C02_nan_never_accepted_nanguard : forall (logd : vec -> ext) (grad : vec
 Proof. exact mala_nanguard_nan. Qed.
 Print Assumptions C02_nan_never_accepted_nanguard.
 
-(* FINDINGS (refuted classes = the sites without the full guard on the unchanged tree) *)
+(* repaired defects (7ac16b1; refuted classes = the sites that lacked the full guard before) *)
 Theorem C02_unguarded_mh_refuted :
   exists (T : target) (st : state) (s : Q) (xi : vec) (l : Q),
     sld st = t_logd T (sx st) /\ is_nan (t_logd T (mh_prop s (sx st) xi)) = true /\
